@@ -82,18 +82,8 @@ theorem pre_length {p : Str} (h : p ≠ []) : (pre p).length = p.length + 1 := b
 
 /-! ## the name parts -/
 
-/-- name part of the v2 key -/
-def v2Name (sfx : Str → Str) (k : Str) : Str :=
-  (safeKey k).take (63 - (if k.length > 63 then sfx k else []).length) ++ (if k.length > 63 then sfx k else [])
-
 theorem v2Key_eq (p : Str) (sfx : Str → Str) (k : Str) : v2Key p sfx k = pre p ++ v2Name sfx k := by
   simp [v2Key, v2Name, List.append_assoc]
-
-/-- name part of the v1 key -/
-def v1Name (p : Str) (sfx : Str → Str) (k : Str) : Str :=
-  pyTake (safeKey k) (63 - ((pre p).length : Int) -
-      ((if ((safeKey k).length : Int) ≤ 63 - ((pre p).length : Int) then [] else sfx (safeKey k)).length : Int))
-    ++ (if ((safeKey k).length : Int) ≤ 63 - ((pre p).length : Int) then [] else sfx (safeKey k))
 
 theorem v1Key_eq (p : Str) (sfx : Str → Str) (k : Str) : v1Key p sfx k = pre p ++ v1Name p sfx k := by
   simp [v1Key, v1Name, List.append_assoc]
@@ -242,5 +232,39 @@ theorem slash_split_unique (p p' n n' : Str) (hp : ∀ c ∈ p, c ≠ '/') (hp' 
 theorem v2Name_long_length {sfx : Str → Str} {k : Str} (h : k.length > 63) (hs : (sfx k).length ≤ 63) :
     ((safeKey k).take (63 - (sfx k).length)).length = 63 - (sfx k).length := by
   rw [List.length_take, safeKey_length]; omega
+
+/-! ## a handler's v2 name versus the `kopf-managed` marker -/
+
+theorem safeKey_markKey_ne {d : Bool} {k k' : Str} (h : safeKey k ≠ safeKey k') :
+    safeKey (markKey d k) ≠ safeKey (markKey d k') := by
+  cases d with
+  | false => simpa [markKey] using h
+  | true =>
+    simp only [markKey, if_true, safeKey, List.map_append]
+    intro e
+    exact h (List.append_cancel_right e)
+
+theorem v2Key_ne_marker_short {p : Str} (hp : p ≠ []) (sfx : Str → Str) {k : Str} (hk : k.length ≤ 63)
+    (hm : safeKey k ≠ "kopf-managed".toList) : v2Key p sfx k ≠ markerName p := by
+  rw [v2Key_eq, pre_of_ne hp, v2Name_short hk]
+  intro e
+  have e' : p ++ '/' :: safeKey k = p ++ '/' :: "kopf-managed".toList := by
+    simpa [markerName] using e
+  have := List.append_cancel_left e'
+  simp at this
+  exact hm this
+
+theorem v2Key_ne_marker_long {p : Str} (hp : p ≠ []) (sfx : Str → Str) {k : Str} (hk : k.length > 63)
+    (hs : (sfx k).length ≤ 63) : v2Key p sfx k ≠ markerName p := by
+  rw [v2Key_eq, pre_of_ne hp, v2Name_long hk]
+  intro e
+  have e' : p ++ '/' :: ((safeKey k).take (63 - (sfx k).length) ++ sfx k) = p ++ '/' :: "kopf-managed".toList := by
+    simpa [markerName] using e
+  have h2 := List.append_cancel_left e'
+  simp only [List.cons.injEq, true_and] at h2
+  have h3 := congrArg List.length h2
+  rw [List.length_append, v2Name_long_length hk hs] at h3
+  have : ("kopf-managed".toList).length = 12 := by decide
+  omega
 
 end Kopf.C16
